@@ -51,9 +51,10 @@ def modal_args(name, tier):
 
 def fo_args(name, tier):
     L = LOGICS[name]
-    if not L.quantified:
-        return ()
     out = _fo(2, 'small') if tier == 'quick' else _fo(3, True)
+    if not L.quantified:
+        # predication (and identity) without quantifiers
+        out = tuple(a for a in out if 'V' not in a and 'S' not in a)
     if not L.identity:
         out = tuple(a for a in out if 'I' not in a)
     if L.modal:
